@@ -17,9 +17,9 @@ E1_TECH = "stateless model checking of the implementation: cooperative scheduler
 
 CLAIMS = {
     "C01": dict(engine="seqx", category="exploration",
-        text="Every Unicode scalar value (1,112,064) in four positions is serialized by Event.Serialize and compared byte-for-byte with an independent NIP-01 serializer; a product of keys x kinds x timestamps x tag shapes x contents is signed with BIP-340 over the reference id and must verify; every single-bit flip of id/pubkey/sig and every single-field change of signed events must not verify. Exhaustive over these stated spaces.",
-        note="Trusted: refmodel/nip01ser.go (written from the NIP text, no encoding/json), btcec's schnorr signer as BIP-340 reference, SHA-256. The relay's admission gate (relay.go) is exercised by C12's check, not here.",
-        technique=ENUM_TECH, design="DESIGN.md §4 C01"),
+        text="Every Unicode scalar value (1,112,064) in four positions is serialized by Event.Serialize and compared byte-for-byte with an independent NIP-01 serializer; a product of keys x kinds x timestamps x tag shapes x contents is signed with BIP-340 over the reference id and must verify; every single-bit flip of id/pubkey/sig and every single-field change of signed events must not verify. Exhaustive over these stated spaces. Call history: every sequence of up to 3/4 Serialize/Verify calls over 6 events (verdicts and returned forms must not depend on earlier calls; a returned form must not change later). Concurrency (E1, scheduling point before every statement of Serialize/Verify): 2-3 tasks verifying/serializing different events under every schedule up to a preemption bound.",
+        note="Trusted: refmodel/nip01ser.go (written from the NIP text, no encoding/json), btcec's schnorr signer as BIP-340 reference, SHA-256. The relay's admission gate (relay.go) is exercised by the ws-gate part (E3).",
+        technique=ENUM_TECH + "; exhaustive call sequences up to a depth; stateless model checking of concurrent callers with statement-level scheduling points", design="DESIGN.md §4 C01"),
     "C03": dict(engine="seqx", category="model_checking",
         text="Explicit-state BFS over every insertion history (depth 3 quick / 5 thorough, capacities 1,2,3,(4),100; capacities <= 4 reach a fixpoint) over a 28-event colliding alphabet, each state rebuilt on a fresh real EventCache and keyed on a dump of the complete internal state; in every state 841 filter lists are answered by Find and compared with a tie-tolerant specification over the retained set (both access paths).",
         note="Trusted: refmodel.MatchFilter and the limit-newest union oracle. Alphabet- and depth-bounded. Ties at a limit cut accept any choice.",
@@ -37,7 +37,7 @@ CLAIMS = {
         note="Hash seed fixed (12345) with a no-collision check of the alphabet; addressable events without d, deleted deletion requests, a references to plain replaceable kinds unclaimed.",
         technique="explicit-state model checking of the implementation: BFS over batch histories on fresh real databases, full table dump as state key", design="DESIGN.md §4 C06"),
     "C07": dict(engine="vsched", category="model_checking",
-        text="All schedules of one real RouterHandler with 2-3 client connections in 10 scenarios (matching/non-matching publication, replacement, CLOSE, same id on two connections, two publishers, disconnect by cancel or inbound close at every cut point, stalled subscriber with buflen+2 publications, self-delivery) x buflen 1,2, map iteration order in Publish explored as a choice; unbounded within a per-job budget, else complete up to a delay bound; three-valued oracle on call/return stamps (EOSE received before the EVENT was sent => must deliver once; REQ after the OK, closed/replaced/finished before => must not; otherwise may), per-publisher order, every REQ an EOSE, every EVENT an accepting OK, publishers never blocked by a stalled subscriber.",
+        text="All schedules of one real RouterHandler with 2-3 client connections in 15 scenarios (matching/non-matching publication, replacement, CLOSE, CLOSE of ids that are not open, REQ/CLOSE/REQ or a first REQ racing a publication followed by a publication after quiescence, two publishers against a stalled subscriber, same id on two connections, two publishers, disconnect by cancel or inbound close at every cut point, stalled subscriber with buflen+2 publications, self-delivery) x buflen 1,2, map iteration order in Publish explored as a choice; unbounded within a per-job budget, else complete up to a delay bound; three-valued oracle on call/return stamps (EOSE received before the EVENT was sent => must deliver once; REQ after the OK, closed/replaced/finished before => must not; otherwise may), per-publisher order, every REQ an EOSE, every EVENT an accepting OK, publishers never blocked by a stalled subscriber.",
         note="A delivery may be missing only if >= buflen other deliveries to that connection were unread; connections ended by the environment may lose queued deliveries (unclaimed).",
         technique=E1_TECH, design="DESIGN.md §4 C07"),
     "C08": dict(engine="vsched", category="model_checking",
@@ -53,7 +53,7 @@ CLAIMS = {
         note="Enumerates frames/outputs/configurations, not interleavings inside net/http and coder/websocket; net.Pipe instead of TCP. Frames above the size limit (library closes) are unclaimed.",
         technique="bounded exhaustive enumeration of frame and output sequences on the real WebSocket stack under virtual time with exact quiescence detection", design="DESIGN.md §4 C12"),
     "C13": dict(engine="vsched", category="model_checking",
-        text="Handlers (E1): 8 real compositions (Default, Cache, Router, merges, SQLite in memory, the composition of cmd/mocrelay) x 6 wrappers plus every provided middleware singly, serving [REQ, EVENT, COUNT, CLOSE, REQ] while a second connection publishes; the session is ended by an environment task enabled from the start (every cut point) - cancel with draining or stalled peer, or inbound close; all schedules up to a delay bound per job; at quiescence ServeNostr has returned, no task spawned under the session is alive, router registry and Prometheus gauges are back. WebSocket (E3): SendTimeout x PingDuration (incl. disabled) x handler x stall point in virtual time: the stalled peer is dropped by T0+SendTimeout(+allowance), ServeHTTP returns, no goroutine left; every cut point of a 4-frame history for client close / connection cut.",
+        text="Handlers (E1): 8 real compositions (Default, Cache, Router, merges, SQLite in memory, the composition of cmd/mocrelay) x 6 wrappers plus every provided middleware singly plus four wrappers configured to refuse parts of the history (the middleware's own rejection in flight, peer stalling after 0-3 reads), serving [REQ, EVENT, COUNT, CLOSE, REQ] while a second connection publishes; the session is ended by an environment task enabled from the start (every cut point) - cancel with draining or stalled peer, or inbound close; all schedules up to a delay or deviation bound per job (steps of the environment task cost nothing, so every cut point of every explored schedule is reached); at quiescence ServeNostr has returned, no task spawned under the session is alive, router registry and Prometheus gauges are back. WebSocket (E3): SendTimeout x PingDuration (incl. disabled) x handler x stall point in virtual time: the stalled peer is dropped by T0+SendTimeout(+allowance), ServeHTTP returns, no goroutine left; every cut point of a 4-frame history for client close / connection cut.",
         note="Goroutines inside database/sql, go-sqlite3, net/http and coder/websocket are not scheduled by E1; E3 enumerates configurations and cut points, not interleavings of the network stack.",
         technique=E1_TECH + "; plus exhaustive enumeration of configurations and cut points on the real WebSocket stack under virtual time", design="DESIGN.md §4 C13"),
     "C15": dict(engine="vsched", category="model_checking",
@@ -61,7 +61,7 @@ CLAIMS = {
         note="Sequentially consistent interleavings only; the race pass samples. exhaustive=false in the evidence because of the sampled part.",
         technique=E1_TECH + " with statement-level scheduling points; brute-force linearizability checking; free-running -race pass as complement", design="DESIGN.md §4 C15"),
     "C16": dict(engine="vsched", category="model_checking",
-        text="Every client message sequence up to length 3/4 over 12 messages through the real CacheHandler (canonical schedule, all schedules for length 2 and a core at length 3) and up to length 2/3 through the real SQLite handler (stepwise with quiescence, pipelined with a delay bound): the reply stream is the in-order concatenation of per-request replies. Dump/restore: in every state of the C03 exploration a dumped and restored cache answers the whole filter battery identically.",
+        text="Every client message sequence up to length 3/4 over 13 messages (incl. a REQ for which the SQLite query fails) through the real CacheHandler (canonical schedule, all schedules for length 2 and a core at length 3) and up to length 2/3 through the real SQLite handler (stepwise with quiescence, pipelined with a delay bound): the reply stream is the in-order concatenation of per-request replies. Dump/restore: in every state of the C03 exploration a dumped and restored cache answers the whole filter battery identically.",
         note="Cache: 'newly stored' and stored matches are taken from the cache run sequentially (decided against the spec by C03-C05).",
         technique=E1_TECH + "; explicit-state BFS for dump/restore", design="DESIGN.md §4 C16"),
     "C14": dict(engine="faultsql", category="fault_enumeration",
